@@ -204,7 +204,7 @@ func init() {
 func init() {
 	properties["C12"] = Property{
 		Level: "exploration",
-		Rule: "cases = (generated multi-package program, seeded or not, one changed input from {nothing (repeat on fresh caches), -tiny, -literals, the seed value, a build tag that adds a file, a comment-only edit in one package, the module path, GOGARBLE}); both sides' complete name tables come from `garble map` (whose agreement with the build is C13's subject), every listed objectpath is resolved against the type-checked original to classify it as package-scoped (funcs, types, vars, consts, methods, interface methods, embedded fields, the import path) or struct field; metamorphic oracle per the statement: with -seed names are equal under flag/tag/edit/GOGARBLE changes, all differ under another seed, package-scoped names differ and field names stay under another module path; without -seed names are stable across repeats, all differ under flag or GOGARBLE changes, and after an edit the edited package's package-scoped names differ while its field names and the names of packages that do not import it stay. evaluations = build pairs; names-compared is reported as a label. Non-trivial = at least 10 names compared under an asserted relation; distinct = (changed input, seeded?, kinds present).",
+		Rule: "cases = (generated multi-package program, seeded or not, one changed input from {nothing (repeat on fresh caches), -tiny, -literals, the seed value, a build tag that adds a file, a comment-only edit in one package, the module path, GOGARBLE}); both sides' complete name tables come from `garble map` (whose agreement with the build is C13's subject), every listed objectpath is resolved against the type-checked original to classify it as package-scoped (funcs, types, vars, consts, methods, interface methods, embedded fields, the import path) or struct field; metamorphic oracle per the statement: with -seed names are equal under flag/tag/edit/GOGARBLE changes, all differ under another seed, package-scoped names differ and field names stay under another module path; without -seed names are stable across repeats, all differ under flag or GOGARBLE changes, and after an edit the edited package's package-scoped names differ while its field names and the names of packages that do not import it stay. A second unit runs `garble -seed test` on programs whose packages have internal and external test packages declaring same-named functions; the tests print those functions' run-time names, which must differ between a package and its external test package (another package). evaluations = build pairs resp. test runs; names-compared is reported as a label. Non-trivial = at least 10 names compared under an asserted relation; distinct = (changed input, seeded?, kinds present).",
 		Assumptions: append([]string{"a chance equality of two 36..72-bit hashed names is ignored", "the Go version and GOOS/GOARCH inputs are not varied (one toolchain; another platform's std would have to be compiled for every case)"}, commonAssumptions...),
 		ReplayUnit:  "TestC12Replay",
 		Units: []Unit{
